@@ -94,7 +94,22 @@ def gen(rng, i, ctx):
             r = np.array(regs[int(rng.integers(0, len(regs)))])
             y0 = float(r[:, 1].min()) if rng.random() < 0.5 else float(r[:, 1].max())
             x0 = float(r[:, 0].min() + rng.uniform(-50, 50)); ang = 0.0
-        if rng.random() < 0.4 and regs:
+        if rng.random() < 0.25 and regs:
+            # a short line just inside one of the four edges of a region's bounding box
+            r = np.array(regs[int(rng.integers(0, len(regs)))])
+            xa, ya, xb, yb = r[:, 0].min(), r[:, 1].min(), r[:, 0].max(), r[:, 1].max()
+            side = int(rng.integers(0, 4))
+            L = float(rng.uniform(3, 25))
+            ang = 0.0
+            if side == 0:
+                x0, y0 = float(xb - L - rng.uniform(0.5, 8)), float(rng.uniform(ya + 2, max(ya + 3, yb - 5)))
+            elif side == 1:
+                x0, y0 = float(xa + rng.uniform(0.5, 8)), float(rng.uniform(ya + 2, max(ya + 3, yb - 5)))
+            elif side == 2:
+                x0, y0 = float(rng.uniform(xa + 2, max(xa + 3, xb - 30))), float(ya + rng.uniform(0.5, 8))
+            else:
+                x0, y0 = float(rng.uniform(xa + 2, max(xa + 3, xb - 30))), float(yb - rng.uniform(0.5, 8))
+        elif rng.random() < 0.4 and regs:
             # a line placed inside a region
             r = np.array(regs[int(rng.integers(0, len(regs)))])
             cx, cy = r[:, 0].mean(), r[:, 1].mean()
